@@ -147,8 +147,11 @@ pub fn run(ctx: &Ctx) {
     }
     // ---- predicate address / encoding / size for every shape up to the bound
     let (mn, me) = if ctx.thorough { (20, 70) } else { (9, 34) };
-    for n in 0..=mn {
-        for e in 0..=me {
+    let mut shapes: Vec<(usize, usize)> = (0..=mn).flat_map(|n| (0..=me).map(move |e| (n, e))).collect();
+    // the documented size limits themselves
+    shapes.extend([(1000, 1000), (1000, 0), (0, 1000), (999, 1000)]);
+    for (n, e) in shapes {
+        {
             let id = format!("predicate/{n}/{e}");
             if !ctx.want(&id) {
                 continue;
